@@ -75,6 +75,19 @@ Ideas in other directions (only where provably equivalent):
   - how loops that empty a window are written (`while w: k, r = w.popitem()` ONLY where the order is provably unobservable - otherwise keep the order - `for k in tuple(w)`, `list(w.items())` snapshots with `del`), how the framing loop tests its minimum (`len(buf) <= 1`, `not len(buf) > 1`), reading `self._buffer` through a local that is re-read after each dispatch;
   - module-level helper functions instead of methods where `self` is not needed, `functools.partial` for timer callbacks with their request bound, `operator` functions, `any()`/`all()` over small tuples, `dict.fromkeys`, tuple-returning helpers unpacked at the call site.
 """
+if mode == "neutral6":
+    mode = "neutral"
+    EXTRA = """IMPORTANT - be original: five earlier rounds of refactorings of this library already used the following reshapes, so do NOT make them the core of yours (they may appear incidentally); look for DIFFERENT, equally legitimate ways a maintainer might restructure the code:
+  - merged alarm-cancelling loops, `.items()`/`.values()`/`.pop()` swaps; try/except KeyError <-> `in` test <-> `dict.get`; closures <-> bound methods; handleCONNACK split into helpers, `_enter(state)`, `_startKeepalive`/`_stopKeepalive`, cancel-and-clear helpers, `_arm(request, delay, cb)`, class constants for magic numbers, `_newRequest(cls, **fields)`, `_notify(name, *args)`, tables of (predicate, exception) pairs, `functools.partial` timer callbacks, module-level helper functions;
+  - in pdu.py: base classes / template methods, `int.to_bytes`/`struct`, position-based decoders, namedtuple tables, `bytearray().join(map(helper, items))`, `divmod`, concatenation-assembled packets;
+  - tables for the state machine, mixins, dispatch tables, sentinel objects, work lists, `next(genexp, default)`, for-else, priming-read framing loop, `del buf[:n]`, classmethods, `setdefault` loops in buildProtocol, a collected set of identifiers in use.
+Ideas in other directions (only where provably equivalent for every input that matters - argue it in NOTES.md):
+  - EAFP instead of tests, placed so that nothing else changes: `try: request.alarm.cancel() except AttributeError: pass` PER ENTRY instead of `if request.alarm is not None` (only where the handle, when not None, is provably still pending), `try/except IndexError` around a single indexing instead of a length test, `contextlib.suppress`;
+  - iterators and generators used CORRECTLY: a generator method that yields the (key, request) pairs of several windows consumed by exactly one `for`; `itertools.chain`/`chain.from_iterable` over the windows; a fresh generator created for every membership test; `any(... for ...)`; `set(generator)` built once in front of a loop and tested many times; `iter()`/`next()` with a default;
+  - flag bytes in pdu.py read and written differently but identically: `(flags >> 5) & 0x01 == 1`, `bool(flags & 0x20)`, `flags & 0x20 == 0x20`, a table of (mask, attribute) pairs walked in a loop, masks as named constants, `qos = (byte0 & 0x06) >> 1`, flags assembled with `+` of disjoint bits or `sum(...)`, `int(bool) << n`;
+  - range checks written differently but accepting exactly the same values: `qos not in (0, 1, 2)`, `qos not in range(3)`, `not 0 <= qos <= 2`, `qos < 0 or qos > 2`, bounds as class constants (`MAX_QOS = 2`), a `_checkRange(value, lo, hi, exc)` helper, `min`/`max` clamps ONLY where provably not changing what is accepted;
+  - what is stored for retransmission: the encoded packet kept under another name, a `_wire(request)` helper returning the bytes to write, the DUP patch done by a small `_markDup(request)` helper or with `|= 0x08`, `request.encoded` wrapped in `bytes()` at write time;
+  - the loss path and the CONNACK path restructured: one loop over `(window, exception)` pairs, the clean/persistent decision computed once into a local, clean-up phases as private methods called in the same order, `list(w.values())` snapshots."""
 if mode == "break":
     used = []
     for f in sorted(glob.glob("/verif/seeded/%s-*/meta.json" % pid)):
